@@ -158,7 +158,8 @@ func storeTargetOf(fa *FuncAn, v ssa.Value, depth int) string {
 				}
 				return a
 			}
-		case *ssa.Convert, *ssa.ChangeType, *ssa.Extract, *ssa.MakeInterface:
+		case *ssa.Convert, *ssa.ChangeType, *ssa.Extract, *ssa.MakeInterface, *ssa.Phi:
+			// (a phi: the value was kept in a local that is assigned on more than one path)
 			if s := storeTargetOf(fa, x.(ssa.Value), depth+1); s != "" {
 				return s
 			}
@@ -203,6 +204,22 @@ func readerTrace(fa *FuncAn, ops map[string]string, verPat string) []layTok {
 					}
 				}
 				if op == "" {
+					// a helper introduced later that holds part of the reader: its tokens, in place
+					if g := x.Call.StaticCallee(); g != nil && newHelper(g) && fa.R.inlineDepth < 2 {
+						sub := NewFuncAnCtx(fa.W, g, fa.CallArgs(x))
+						sub.R.inlineDepth = fa.R.inlineDepth + 1
+						outer := versionGuard(fa, b, verPat)
+						for _, st := range readerTrace(sub, ops, verPat) {
+							st.Loop = st.Loop || inLoop
+							switch {
+							case st.Guard == "":
+								st.Guard = outer
+							case outer != "" && !strings.Contains(st.Guard, outer):
+								st.Guard = outer + "," + st.Guard
+							}
+							out = append(out, st)
+						}
+					}
 					continue
 				}
 				t := layTok{Op: op, Guard: versionGuard(fa, b, verPat), Loop: inLoop, Pos: fa.W.Pos(InstrPos(in))}
@@ -350,7 +367,40 @@ func traceString(ts []layTok) string {
 }
 
 // compareTrace checks a trace against the reference token strings.
+// expandData: DATA→X (a counted octet string read by one helper) is U32→tmp; BYTES(tmp)→X read by
+// two: the same bytes in the same order.
+func expandData(ts []string) []string {
+	var out []string
+	for _, t := range ts {
+		if strings.HasPrefix(t, "DATA→") {
+			rest := strings.TrimPrefix(t, "DATA→")
+			suffix := ""
+			dst := rest
+			if i := strings.Index(rest, " "); i >= 0 {
+				dst, suffix = rest[:i], rest[i:]
+			}
+			out = append(out, "U32→tmp"+suffix, "BYTES(tmp)→"+dst+suffix)
+			continue
+		}
+		out = append(out, t)
+	}
+	return out
+}
+
 func compareTrace(c *Check, rule, fk, where, what string, got []layTok, want []string, source string) {
+	{
+		var gs []string
+		for _, t := range got {
+			gs = append(gs, t.String())
+		}
+		if strings.Join(expandData(gs), "; ") == strings.Join(expandData(want), "; ") && strings.Join(gs, "; ") != strings.Join(want, "; ") {
+			// same bytes, grouped differently: every reference row holds
+			for i, wv := range want {
+				c.Ok(rule, fk, fmt.Sprintf("%s #%d %s", what, i+1, wv), where, fmt.Sprintf("%s step %d is %s (%s)", what, i+1, wv, source))
+			}
+			return
+		}
+	}
 	g := make([]string, len(got))
 	for i, t := range got {
 		g[i] = t.String()
